@@ -211,7 +211,8 @@ class Gen:
                 v = self.fresh()
                 c = r.choice(['0', '1', '0.5', '-2', '4', '100'])
                 a = self.atom()
-                self.lines.append(f'{pad}if {a} {r.choice(["<", "<=", ">", ">="])} {c}:')
+                op_ = r.choice(["<", "<=", ">", ">=", "==", "!="])
+                self.lines.append(f'{pad}if {a} {op_} {c}:' if r.random() < 0.5 else f'{pad}if {c} {op_} {a}:')
                 self.lines.append(f'{pad}    {v} = {self.expr()}')
                 self.lines.append(f'{pad}else:')
                 self.lines.append(f'{pad}    {v} = {self.expr()}')
@@ -292,6 +293,38 @@ def k_while(a0: fp.Real):
 '''
 
 
+GUARD_OPS = ['<', '<=', '>', '>=', '==', '!=']
+GUARD_LITS = ['-8', '65536', '0.5', '0']
+
+
+def guard_programs():
+    """branch refinement: every comparison operator, the literal on either side, negative / positive / fractional / zero
+    literals; the guarded variable is read (and used in exact arithmetic) in BOTH arms"""
+    out = []
+    k = 0
+    for op in GUARD_OPS:
+        for lit in GUARD_LITS:
+            for lit_left in (False, True):
+                cond = f'{lit} {op} a0' if lit_left else f'a0 {op} {lit}'
+                name = f'gd{k}'
+                src = f'''
+@fp.fpy
+def {name}(a0: fp.Real):
+    if {cond}:
+        t1 = a0
+        with fp.REAL:
+            t2 = a0 + a0
+    else:
+        t1 = a0
+        with fp.REAL:
+            t2 = a0 - 1
+    return t1, t2
+'''
+                out.append((name, src, lit))
+                k += 1
+    return out
+
+
 def run_programs(ck, rng, thorough):
     import fpy2 as fp
     from fpy2.analysis.format_infer import FormatInfer, FunctionFormat, SetFormat
@@ -303,6 +336,11 @@ def run_programs(ck, rng, thorough):
     nprog = 160 if thorough else 36
     srcs = ['import fpy2 as fp', FIXED_PROGRAMS]
     names = [('k_neg', 1), ('k_abs', 1), ('k_mul', 2), ('k_acc', 2), ('k_branch', 2), ('k_while', 1)]
+    guard_lit = {}
+    for gname, gsrc, glit in guard_programs():
+        srcs.append(gsrc)
+        names.append((gname, 1))
+        guard_lit[gname] = Fraction(glit)
     for i in range(nprog):
         nargs = rng.choice([1, 2, 2, 3])
         srcs.append(gen_program(rng, f'g{i}', nargs))
@@ -379,6 +417,23 @@ def run_programs(ck, rng, thorough):
     def special(v):
         return isinstance(v, Float) and (v.isnan or v.isinf or (v.is_zero() and v.s))
 
+    guard_ctxs = [fp.SINT32, fp.FP32, fp.MPFixedContext(-2), fp.FP16]
+
+    def guard_values(c, lit):
+        """arguments on both sides of, next to and at the literal (and its mirror image), representable in c"""
+        out = []
+        for q in (lit - 1, lit - Fraction(1, 4), lit, lit + Fraction(1, 4), lit + 1, -lit, -lit - 1, -lit + 1, Fraction(0), lit * 3 + 2, -lit * 3 - 2):
+            try:
+                v = c.round(q)
+            except Exception:  # noqa
+                continue
+            if c.format().representable_in(v) and not any(v == w and v.s == w.s for w in out):
+                out.append(v)
+        nz = Float(s=True, exp=0, c=0)
+        if c.format().representable_in(nz):
+            out.append(nz)
+        return out
+
     runs = checks = 0
     n_analysis_err = n_run_err = 0
     root_hist = {}
@@ -387,11 +442,13 @@ def run_programs(ck, rng, thorough):
         f = funcs.get(nm)
         if f is None:
             continue
-        for cfg in range(3 if thorough else 2):
+        for cfg in range((4 if nm in guard_lit else 3) if thorough else 2):
             octx = rng.choice(outer_ctxs)
             actx = [rng.choice(arg_ctxs) for _ in range(nargs)]
             if nm.startswith('k_') and cfg == 0:
                 octx, actx = fp.FP64, [fp.SINT8] * nargs
+            if nm in guard_lit:
+                octx, actx = fp.FP64, [guard_ctxs[(int(nm[2:]) + cfg) % len(guard_ctxs)]]
             afmts = tuple(c.format() for c in actx)
             try:
                 info = FormatInfer.analyze(f.ast, fn_fmt=FunctionFormat(ctx=octx, arg_fmts=afmts, ret_fmt=None))
@@ -403,8 +460,9 @@ def run_programs(ck, rng, thorough):
             for d, b in info.by_def.items():
                 if isinstance(d, AssignDef) and isinstance(d.site, Assign):
                     def_fmt[id(d.site.expr)] = (d, b)
-            for _ in range(per):
-                args = [sample_arg(c) for c in actx]
+            gvals = guard_values(actx[0], guard_lit[nm]) if nm in guard_lit else None
+            for _ in range(len(gvals) if gvals is not None else per):
+                args = [gvals[_]] if gvals is not None else [sample_arg(c) for c in actx]
                 if nm.startswith('k_') and cfg == 0 and _ == 0:
                     args = {'k_neg': [0], 'k_abs': [-128], 'k_mul': [-2, 0]}.get(nm, args)
                 interp = Tracer()
